@@ -43,7 +43,7 @@ let () =
             (List.map (fun x -> n_of_int (int_of_string x)) (String.split_on_char ',' (String.sub o 2 (String.length o - 2))), rest)
           | _ -> (List.mapi (fun i _ -> n_of_int i) seqs, seqs)) in
         let seqs = List.map parse_seq seqs in
-        let general = (vs.[1] = 'V') in
+        let general = (vs.[1] = 'V' || vs.[1] = 'W') in   (* W: judged by the check script itself, see harness *)
         let sentn = n_of_int (int_of_string sent) in
         (* the model registers the players in the order of the case (BuildOrder.lt_build_order) *)
         let tr = if general then run_goN rev v sentn order seqs else run_oN rev v sentn order seqs in
